@@ -35,6 +35,15 @@ Theorem c01_cmp_refutable : forall c u id op osp x k,
 Proof. exact cmp_refutable. Qed.
 Print Assumptions c01_cmp_refutable.
 
+(* comparison "by ordering" on a partial order: a value incomparable with the operand (an f64 NaN against any float
+   operand) is reported by `<`, `<=`, `>`, `>=` and `==` alike and passes only `!=` — `>=` is not "not <" *)
+Theorem c01_incomparable_value_fails_every_ordering_test : forall c u id op osp x k,
+  ueval c x = Some (VFloat (Some k)) ->
+  (op <> OpNe -> exists en, frontier c u (PCmp id op osp x) (VFloat None) = Some [en]) /\
+  (op = OpNe -> frontier c u (PCmp id op osp x) (VFloat None) = Some []).
+Proof. exact cmp_incomparable. Qed.
+Print Assumptions c01_incomparable_value_fails_every_ordering_test.
+
 (* the known finding: an identifier (or zero-argument call) written as a value is a binding
    that always matches — S { age: expected_age, .. } with expected_age = 31 passes on 30 *)
 Lemma known_c01_ident_binding_refuted :
